@@ -623,8 +623,13 @@ where
                     }
                 }
             }
-            Instruction::Next => todo!(),
-            Instruction::Last => todo!(),
+            Instruction::Next | Instruction::Last => {
+                // Not generated by the compiler and not implemented; bytecode is
+                // untrusted input, so report it instead of panicking.
+                return Err(self.err(MachineErrorType::BadState(
+                    "instruction is not implemented",
+                )));
+            }
             Instruction::Call(t) => match t {
                 Target::Unresolved(label) => {
                     return Err(self.err(MachineErrorType::UnresolvedTarget(label)));
